@@ -218,6 +218,10 @@ pub fn run_behaviour(pr: Proto, beh: &Beh, inst: &BInst, km: &KeyMat, book: &mut
             }),
             "remove" => bops.push(BOp::RemoveClaim(inst.keys[&o.k].clone())),
             "extend" => bops.push(BOp::ExtendClaims(vec![(inst.keys[&o.k].clone(), inst.vals[&(o.k.clone(), o.v.clone())].clone())])),
+            "extend2" => bops.push(BOp::ExtendClaims(vec![
+                (inst.keys["ca"].clone(), inst.vals[&("ca".to_string(), o.v.clone())].clone()),
+                (inst.keys["cb"].clone(), inst.vals[&("cb".to_string(), o.v.clone())].clone()),
+            ])),
             "extendw" => {
                 // a boxed claim object handed to extend_claims: it serialises as {key: value}
                 let ck = inst.keys[&o.k].clone();
